@@ -38,6 +38,22 @@ func dnsQuery(id uint16, name string) []byte {
 	return append(b, 0, 1, 0, 1)
 }
 
+// dnsQueryCarrying is a query that also carries one answer record (as a conflict-detection or
+// record-bearing request would); the record's address is unique to the request.
+func dnsQueryCarrying(id uint16, name string, marker net.IP) []byte {
+	b := make([]byte, 12)
+	binary.BigEndian.PutUint16(b[0:], id)
+	binary.BigEndian.PutUint16(b[4:], 1)
+	binary.BigEndian.PutUint16(b[6:], 1)
+	b = append(b, dnsName(name)...)
+	b = append(b, 0, 1, 0, 1)
+	b = append(b, dnsName(name)...)
+	b = append(b, 0, 1, 0, 1, 0, 0, 0, 30, 0, 4)
+	return append(b, marker.To4()...)
+}
+
+func markerOf(id uint16) net.IP { return net.IP{10, 7, byte(id >> 8), byte(id)} }
+
 func dnsResponse(id uint16, flags uint16, name string, ip net.IP) []byte {
 	b := make([]byte, 12)
 	binary.BigEndian.PutUint16(b[0:], id)
@@ -134,6 +150,7 @@ func llIP(i int) net.IP   { return net.IP{10, 3, byte(i >> 8), byte(i)} }
 // ---------------------------------------------------------------- LLMNR server and / or client
 
 type llQuery struct {
+	carry  bool // raw clients: the query carries a record whose address the responder must echo
 	name   int
 	id     uint16 // raw clients: chosen; real client: learnt from the wire
 	cancel int64  // real client: cancel the context after this long (0 = never)
@@ -207,6 +224,10 @@ func runLLMNR(w *rt.World, res *hx.Result, realServer, realClient bool) *hx.Viol
 				if known[i] && llName(i) == name {
 					resp := llmnr.CreateResponseFromMessage(msg)
 					resp.AddAnswerClassINTypeA(name, llIP(i).String())
+					if len(msg.Answers) > 0 && len(msg.Answers[0].RData) == 4 {
+						// echo the record the request carried: read from the decoded message when the handler runs
+						resp.AddAnswerClassINTypeA(name, net.IP(msg.Answers[0].RData).String())
+					}
 					wr.WriteMessage(resp)
 				}
 			}
@@ -373,7 +394,7 @@ func runLLMNR(w *rt.World, res *hx.Result, realServer, realClient bool) *hx.Viol
 			rc := &llRawClient{idx: c, host: fmt.Sprintf("10.0.1.%d", c+1)}
 			for q := 0; q < clN[c]; q++ {
 				idc += 1 + uint16(pool[c][q][1])
-				rc.qs = append(rc.qs, &llQuery{name: pool[c][q][0] % nNames, id: idc})
+				rc.qs = append(rc.qs, &llQuery{name: pool[c][q][0] % nNames, id: idc, carry: realServer && pool[c][q][1]%2 == 1})
 			}
 			rc.poison = realServer && chain == 3 && c == 0
 			raws = append(raws, rc)
@@ -529,7 +550,15 @@ func runLLMNR(w *rt.World, res *hx.Result, realServer, realClient bool) *hx.Viol
 				}
 				return &hx.Violation{Class: "id_mismatch", Key: sysName, Msg: fmt.Sprintf("client %d received a response with id %#04x that no query carried", rc.idx, m.id)}
 			}
-			if m.flags&0x8000 == 0 || len(m.answers) != 1 || m.answers[0].name != llName(q.name) || !m.answers[0].ip.Equal(llIP(q.name)) {
+			wantAnswers := 1
+			if q.carry {
+				wantAnswers = 2
+			}
+			if len(m.answers) == wantAnswers && q.carry && !m.answers[1].ip.Equal(markerOf(q.id)) {
+				return &hx.Violation{Class: "wrong_answer", Key: sysName + "/carried-record",
+					Msg: fmt.Sprintf("client %d: query %#04x carried the record %v; the handler for that query saw %v in its message (another request's bytes)", rc.idx, m.id, markerOf(q.id), m.answers[1].ip)}
+			}
+			if m.flags&0x8000 == 0 || len(m.answers) != wantAnswers || m.answers[0].name != llName(q.name) || !m.answers[0].ip.Equal(llIP(q.name)) {
 				return &hx.Violation{Class: "wrong_answer", Key: sysName,
 					Msg: fmt.Sprintf("client %d: the response with id %#04x (query for %s) carries %+v, flags %#04x", rc.idx, m.id, llName(q.name), m.answers, m.flags)}
 			}
@@ -661,7 +690,11 @@ func llRaw(rc *llRawClient) {
 		if i > 0 && q.id%3 == 0 {
 			rt.SleepUntil(rt.Now() + 2e6)
 		}
-		c.WriteToUDP(dnsQuery(q.id, llName(q.name)), groupAddr)
+		if q.carry {
+			c.WriteToUDP(dnsQueryCarrying(q.id, llName(q.name), markerOf(q.id)), groupAddr)
+		} else {
+			c.WriteToUDP(dnsQuery(q.id, llName(q.name)), groupAddr)
+		}
 	}
 	if rc.poison {
 		c.WriteToUDP(dnsQuery(0x0666, poisonName), groupAddr)
